@@ -82,7 +82,10 @@ def fresh_oracle(h, rec):
     sch = doc.engine_schema()
     sig = classify(d[0], sch, rec)
     cells = [x for x in d if x.startswith("cell ")]
-    if cells and len(cells) == len(d) and all(
+    from gx.hist_run import circ_order_only, CIRC_ORDER_SIG
+    if circ_order_only(doc, d):
+      sig = CIRC_ORDER_SIG % "fresh"
+    elif cells and len(cells) == len(d) and all(
         stale_removed_key(doc, sch, x.split(" ")[1].split("[")[0], x.split("].", 1)[1].split(":")[0]) for x in cells):
       sig = STALE_LOOKUP_SIG
     h._find(PROP, sig, "; ".join(d[:3]) + " (first=incremental, second=fresh)", rec)
